@@ -29,8 +29,8 @@ SPEC = {
                  "C19_never_wraps", "C19_never_spurious", "C19_shl_clauses", "C19_mul_twins", "C19_mulDiv64_clauses",
                  "C19_go_types_covered", "C19_statement_holds", "C19_wrap_spec", "C19_mul64_spec", "C19_div64_spec",
                  "C19_error_identity", "C19_sentinels_distinct", "C19_ierrors_wrappers", "C19_error_sites_cover"],
-    "trusted_base": ["translator harness/tools/translate-safemath (go/ast -> Lean, ~450 lines), cross-checked on every run by executing the generated definitions against the real functions",
-                     "Go integer semantics Hive/Base/GoInt.lean (wrap-around, truncated division, shifts, &, bits.Mul64/Div64), validated against the raw Go operators exhaustively for 8-bit types and by samples for wider types",
+    "trusted_base": ["translator harness/tools/translate-safemath (go/ast -> Lean, ~1000 lines incl. the error-expression renderer), cross-checked on every run by executing the generated definitions against the real functions",
+                     "Go integer semantics Hive/Base/GoInt.lean + Hive/Model/SafeMathOps.lean (wrap-around, truncated division and remainder, shifts, & | ^ &^ and complement, bits.Mul64/Div64; specification theorems C19_wrap_spec / mul64_spec / div64_spec), validated against the raw Go operators exhaustively for 8-bit types and by samples for wider types",
                      "Go toolchain, compiled Lean driver"],
     "modelled": ["Go operators + - * / << >> & and conversions as Int arithmetic with two's-complement wrap (validated differentially)",
                  "bits.Mul64 / bits.Div64 specified as 128-bit arithmetic", "error values mapped to overflow / divzero by the sentinel they wrap"],
